@@ -432,6 +432,9 @@ def main(chk):
                           ((ROLE_R, ROLE_R), [0, 1])) + ((((ROLE_P, ROLE_R, ROLE_R), [1]),) if chk.thorough else ()):
         tasks.append((o3_get, (prog, roles, list(banned))))
     chk.parallel(_dispatch, tasks)
+    # the client loop's side: a replica that times out a statement is banned, whatever has become of the client (Client::handle executed)
+    from checks import hobl
+    hobl.handle_obligations(chk, chk.program('on'), {'C07'}, ['failover'])
 
 
 if __name__ == '__main__':
